@@ -415,6 +415,8 @@ class Diff:
         self.max_reports = 3
         self.failing_cases = 0
         self.skipped = 0
+        self.line_monitor = None      # optional: property predicate on each implementation line
+        self.monitor_lines = 0
         self.base_timeout = 10
         self.fail_budget_s = 240      # wall time allowed for isolating + shrinking failures
         self.fail_spent = 0.0
@@ -426,6 +428,8 @@ class Diff:
 
     def differs(self, lines):
         impl, crash, info, model = self.both(lines)
+        if crash is None and self.line_monitor and any(self.line_monitor(l) for l in impl):
+            return True
         return crash is not None or first_diff(impl, model) is not None
 
     def account(self, case, model_out):
@@ -452,7 +456,11 @@ class Diff:
         if len(model) != len(allines):
             raise CheckError("model driver produced %d lines for %d inputs" % (len(model), len(allines)))
         bad = 0
-        if crash is None and first_diff(impl, model) is None:
+        monitor_hit = False
+        if self.line_monitor and crash is None:
+            self.monitor_lines += len(impl)
+            monitor_hit = any(self.line_monitor(l) for l in impl)
+        if crash is None and first_diff(impl, model) is None and not monitor_hit:
             pos = 0
             for name, c in named_cases:
                 self.account(c, model[pos:pos + len(c)])
@@ -469,7 +477,8 @@ class Diff:
                 break
             impl, crash, info, model = self.both(c)
             self.account(c, model)
-            if crash is None and first_diff(impl, model) is None:
+            if crash is None and first_diff(impl, model) is None and not (
+                    self.line_monitor and any(self.line_monitor(l) for l in impl)):
                 continue
             bad += 1
             self.failing_cases += 1
